@@ -79,6 +79,12 @@ def extra_cases(rng, quick):
                         times=rescorr.time_grid("quadratic", nt, 2.0, rng), grid="quadratic"))
         out.append(dict(kind="ideal", pi=8000.0, pf=8000.0 * ratio, nx=nx,
                         times=rescorr.time_grid("random", nt, 2.0, rng), grid="random"))
+        # steps that differ by less than any default closeness tolerance, and steps far below 1e-8: each step must still be
+        # solved with ITS increment
+        for gk in ("jitter", "tiny"):
+            out.append(dict(kind="ideal", pi=8000.0, pf=8000.0 * ratio, nx=nx, times=rescorr.time_grid(gk, nt + 6, 0.5, rng), grid=gk))
+            out.append(dict(kind="single", table=tb, table_kind="shipped", pi=8000.0, pf=8000.0 * ratio, nx=min(nx, 150),
+                            times=rescorr.time_grid(gk, nt + 6, 0.5, rng), grid=gk))
     return out
 
 
@@ -127,7 +133,7 @@ def run(ctx):
                         "inside vm_compute; non-uniform grids and time-varying schedules included; nx up to 400 with "
                         "p_f/p_i = 0.9998; solver intercepted for tolerance and fault injection",
                    input_distribution=dict(nx=sorted({c["nx"] for c in cases}),
-                                           grids={g: sum(1 for c in cases if c.get("grid") == g) for g in ("uniform", "quadratic", "geometric", "random", "huge")},
+                                           grids={g: sum(1 for c in cases if c.get("grid") == g) for g in ("uniform", "quadratic", "geometric", "random", "huge", "jitter", "tiny")},
                                            schedules=sum(1 for c in cases if "sched" in c)))
     ctx.samples += [rescorr.describe(c) for c in cases[:3]]
     ctx.validated_only.append("that BiCGSTAB actually converges on every admissible input (third-party iterative solver); "
